@@ -17,9 +17,11 @@ RULE = ('One case = one host (real LinuxAppEnvironment / RuleMgr / EndpointsMgr 
         'containers carry the SAME instance name with different unique ids. Operations interleave randomly: start (network '
         'request, real allocate_network_ports on a loopback address, real save_app, real _run._unshare_network; 12% are cut by a '
         'process kill or a failing ipset call), finish (real _finish.finish reading state.json back, or load_app_safe + '
-        '_cleanup_network directly; 30% are first interrupted once or twice by a kill / failing ipset or conntrack call and then '
-        're-run; followed by 0-2 immediate repeats), and late repeats of the finish of already finished containers (after their '
-        'VIP has been handed to a newer container). Oracle (snapshot arithmetic over rules/, endpoints/ and the IP-set model, '
+        '_cleanup_network directly; 45% of the containers first get one or two finish attempts that are interrupted - a kill at '
+        'a boundary step, a failing ipset / conntrack call, or a kill right after the network request link was removed, which '
+        'lets the network service hand the VIP (lowest free address, as VipMgr does) to the next container - while other '
+        'containers start and finish in between, then the complete run; followed by 0-2 immediate repeats), and late repeats of '
+        'the finish of already finished containers (after their VIP has been handed to a newer container). Oracle (snapshot arithmetic over rules/, endpoints/ and the IP-set model, '
         'written from the statement): D(A) = snapshot after A\'s start minus snapshot before it; after a completed finish of A '
         'the snapshot equals the one before that finish minus exactly D(A) (nothing added, nothing outside D(A) removed, nothing '
         'of D(A) left); an interrupted finish removes nothing outside D(A); a repeated finish changes nothing; after all finishes '
@@ -45,7 +47,9 @@ ASSUMPTIONS = [
     'shared-network containers: run() would wait for a network reply nobody writes; the harness supplies the host address',
     'ports are bound with real sockets on 127.0.0.<shard+1>; the global random module is seeded per case',
     'cut points of injected kills: entry of RuleMgr.create_rule/unlink_rule, EndpointsMgr.create_spec/unlink_spec/unlink_all '
-    '(signature-transparent wrappers), every subprocess call, create_newnet',
+    '(signature-transparent wrappers), every subprocess call, create_newnet, return of ResourceService.clt_del_request of the '
+    'network service (i.e. between the removal of the request link and the renaming of the request directory)',
+    'an unresolvable passthrough host (4% of the passthrough lists) is unresolvable at start and at finish alike',
 ]
 BUDGET = {'quick': (110, 30.0), 'thorough': (1500, 260.0)}
 HASHSEEDS = [0, 1, 2, 3]
@@ -53,7 +57,8 @@ REQUIRED_REACH = {'*': [
     'starts_complete', 'finishes_checked', 'finish_with_live_peer', 'finish_with_live_same_instance_peer',
     'finish_via_finish', 'finish_via_cleanup_network', 'repeat_finish_checked', 'late_repeat_finish_checked',
     'interrupted_finish_attempts', 'resumed_finish_checked', 'aborted_start_then_finish', 'final_state_checked',
-    'foreign_items_seeded', 'vip_reused',
+    'foreign_items_seeded', 'vip_reused', 'finish_killed_after_vip_release',
+    'resumed_finish_while_vip_belongs_to_newer_container',
     'delta_rule_dnat_endpoint_tcp', 'delta_rule_dnat_endpoint_udp', 'delta_rule_snat_endpoint_tcp',
     'delta_rule_snat_endpoint_udp', 'delta_rule_dnat_ephemeral_tcp', 'delta_rule_dnat_ephemeral_udp',
     'delta_rule_passthrough', 'delta_endpoint_spec', 'delta_ipset_vring', 'delta_ipset_infra_endpoint_tcp',
@@ -77,11 +82,14 @@ def _items(items, n=6):
 
 
 def _relation(item, c, containers, initial):
-    """Whose entry did the finish of c remove?"""
+    """Whose entry did the finish of c remove?  (provenance recorded by the harness)"""
     if item in initial:
         return 'pre-existing-entry'
     for o in containers:
         if o is not c and item in o.delta:
+            if c.vip_released_by_interrupted_finish and o.vip is not None and o.vip == c.vip:
+                # c's earlier, killed finish had already released its VIP; o was given that address since
+                return 'vip-successor'
             return 'same-instance-other-uniqueid' if o.name == c.name else 'other-container'
     return 'unowned'
 
@@ -267,36 +275,52 @@ def _run_op(ctx, host, containers, op, initial, case, flags):
         return
 
     if op['op'] == 'finish':
+        if c.stage == 'finished':
+            # an earlier attempt that was meant to be interrupted ran to its end: this one is a late repeat
+            _repeat(ctx, host, c, op['via'], case, 'late_repeat_finish_checked', 'late')
+            return
         aborted = c.stage == 'aborted'
-        live_peers = [o for o in containers if o is not c and o.stage == 'started' and not o.shared and o.delta]
-        attempts = []
-        for kind, frac in op['cuts']:
-            n = gen.estimate_steps(c.manifest, len(c.manifest['passthrough']))
-            attempts.append((kind, 1 + int(frac * (n if kind == 'kill' else max(1, n // 3)))))
-        attempts.append(None)
-        interrupted_before = False
-        for cut in attempts:
-            before = host.snapshot()
-            status = _driven(ctx, lambda: host.finish(c, op['via'], cut), 'finish', case,
-                             witness=_finish_witness(host, c))
-            after = host.snapshot()
-            complete = status != 'interrupted'
-            suffix = ''
-            if not complete:
-                suffix = '@interrupted-finish'
-                ctx.count('interrupted_finish_attempts')
-                ctx.count('interrupted_finish_by_%s' % cut[0])
-            elif interrupted_before:
-                suffix = '@resumed-finish'
-            elif aborted:
-                suffix = '@after-aborted-start'
-            _judge_finish(ctx, c, containers, initial, before, after, complete, suffix, case)
-            if complete:
-                break
-            interrupted_before = True
+        live_peers = [o for o in containers if o is not c and o.stage in ('started', 'aborted')
+                      and not o.shared and o.delta]
+        cut = None
+        if op['cut'] is not None:
+            kind, arg = op['cut']
+            if kind == 'kill_at':
+                cut = (kind, arg)
+            else:
+                n = gen.estimate_steps(c.manifest, len(c.manifest['passthrough']))
+                cut = (kind, 1 + int(arg * (n if kind == 'kill' else max(1, n // 3))))
+        before = host.snapshot()
+        vip_held = c.unique in host.vips
+        status = _driven(ctx, lambda: host.finish(c, op['via'], cut), 'finish', case,
+                         witness=_finish_witness(host, c))
+        after = host.snapshot()
+        complete = status != 'interrupted'
+        suffix = ''
+        if not complete:
+            suffix = '@interrupted-finish'
+            ctx.count('interrupted_finish_attempts')
+            ctx.count('interrupted_finish_by_%s' % cut[0])
+            if vip_held and c.unique not in host.vips:
+                c.vip_released_by_interrupted_finish = True
+                ctx.count('finish_killed_after_vip_release')
+        elif c.interrupted_finishes:
+            suffix = '@resumed-finish'
+            if c.vip_released_by_interrupted_finish:
+                suffix = '@resumed-finish-after-vip-release'
+                if any(o is not c and o.vip == c.vip and o.stage in ('started', 'aborted') for o in containers):
+                    ctx.count('resumed_finish_while_vip_belongs_to_newer_container')
+        elif aborted:
+            suffix = '@after-aborted-start'
+        _judge_finish(ctx, c, containers, initial, before, after, complete, suffix, case)
+        if not c.shared and live_peers:
+            flags['peer'] = True
+        if not complete:
+            c.interrupted_finishes += 1
+            return
         ctx.count('finishes_checked')
         ctx.count('finish_via_%s' % op['via'])
-        if interrupted_before:
+        if c.interrupted_finishes:
             ctx.count('resumed_finish_checked')
         if aborted:
             ctx.count('aborted_start_then_finish')
@@ -304,7 +328,6 @@ def _run_op(ctx, host, containers, op, initial, case, flags):
             ctx.count('finish_shared_network')
         elif live_peers:
             ctx.count('finish_with_live_peer')
-            flags['peer'] = True
             if any(o.name == c.name for o in live_peers):
                 ctx.count('finish_with_live_same_instance_peer')
         c.stage = 'finished'
@@ -326,7 +349,11 @@ def _judge_finish(ctx, c, containers, initial, before, after, complete, suffix, 
                    dict(container=c.idx, added=_items(added)), case)
     seen = set()
     for item in sorted(foreign):
-        mech = 'removed-foreign-entry:%s:%s%s' % (oracle.label(item, None), _relation(item, c, containers, initial), suffix)
+        rel = _relation(item, c, containers, initial)
+        lab = oracle.label(item, None)
+        if rel == 'vip-successor':
+            lab = lab.split(':')[0]
+        mech = 'removed-foreign-entry:%s:%s%s' % (lab, rel, suffix)
         if mech in seen:
             continue
         seen.add(mech)
